@@ -7,11 +7,19 @@ claimed = {
    text="Every obligation generated from the contracts of worstCaseDrift, timeInSync, synchronizedWithNetwork and the package initialiser is discharged by an SMT solver for all inputs: exact 64-bit arithmetic with saturating Time.Sub, all slice lengths (inductive loop invariants), all peers answering or not.",
    note="Assumes: time.Time abstracted to an integer of wall-clock ns; contracts of time.Time.Sub/IsZero, fmt.Errorf, flag.Bool; log/fmt/strings calls do not write robustirc state. Not covered: collectTime/getServerTime (goroutines/HTTP) and the call order in main().",
    design="§5 C19"),
+ "C06": dict(
+   text="Zero-annotation no-panic sweep: for ProcessMessage, every function registered in the command table, the login/captcha/mode helpers, the send helpers, session creation/deletion and FSM.applyRobustMessage, every potential run-time panic site in the SSA (nil dereference, index, slice, nil-map write, division, type assertion, explicit panic, log.Panic/Fatal, nil receiver of a library method) is proved unreachable for all messages and all states satisfying the representation invariant wf*, and wf* is proved to be re-established by every handler and every entry type (so it holds in every reachable state). The dispatch through the command table is proved against a template contract plus a per-registration gate lemma (MinParams, role, registration).",
+   note="Assumes: lines from an authenticated services link are protocol-conforming (exactly the requires clauses labelled conforming* in internal/ircserver/contracts_verif.go); log entries name API-created sessions (Reply = 0) and CreateSession entries carry a >= 8 byte secret and a fresh id; dependencies do not panic on the arguments passed except where their assumed contract says so; OutputStream.Add is used under its assumed contract (no LevelDB I/O error). Integer arithmetic is mathematical (no overflow) in this package.",
+   design="§5 C06"),
+ "C14": dict(
+   text="The representation invariant of the replicated IRC state (nickname index consistent and injective under the case mapping, members are owned nicknames of live sessions, a session lists a channel iff the channel lists the session, no empty channel, session/maps well-formed and separated) is proved for NewIRCServer and proved to be preserved by every command handler, ProcessMessage, session creation/deletion and FSM.applyRobustMessage for every entry type; the user-visible consequences (unique nicknames, symmetric membership, members are live) are proved as lemmas over the invariant. The session limit is the proved postcondition of createSessionLocked.",
+   note="Assumes the conforming* clauses for services input (SVSNICK onto free nicknames, fresh pseudo-client ids). Not proved: syntactic validity of names (regular expressions are not interpreted) and the channel limit as a global bound (cmdJoin tests it; services JOIN/SVSJOIN create channels without the test).",
+   design="§5 C14"),
 }
 na = {
  "C05": "whole-system property over process kills, restarts and leader changes of several OS processes running hashicorp/raft; no function contract within reach expresses it (DESIGN §5 C05)",
 }
-notbuilt = ["C01","C02","C03","C04","C06","C07","C08","C09","C10","C11","C12","C13","C14","C15","C16","C17","C18","C20"]
+notbuilt = ["C01","C02","C03","C04","C07","C08","C09","C10","C11","C12","C13","C15","C16","C17","C18","C20"]
 checks = []
 for pid, c in sorted(claimed.items()):
     checks.append({
